@@ -287,6 +287,10 @@ fn run_script(policy: &ReconnectionBackoffPolicy, mode: Mode, script: &[Conn]) -
             }
         };
         let mut lines = log.lines.lock().unwrap().clone();
+        // how many `ev` lines the run produced: the spec STATES the count (oracle review C12-M1), so
+        // anything the stream does after the prescribed trace is a failure of its own key
+        let evn = lines.iter().filter(|l| l.starts_with("ev ")).count();
+        lines.push(format!("evn {evn}"));
         lines.push(format!("fin {fin}"));
         lines
     })
